@@ -285,6 +285,16 @@ channel_write_map(struct channel* self, size_t nbytes)
             self->high = self->head;
             self->head = beg;
             ++self->cycle;
+            // Readers that had already consumed everything in the finished
+            // cycle continue at the start of the new one. Otherwise their
+            // stale bookmark pins space they will never read.
+            for (uint32_t i = 0; i < self->holds.n; ++i) {
+                if (self->holds.pos[i] == self->high &&
+                    self->holds.cycles[i] + 1 == self->cycle) {
+                    self->holds.pos[i] = 0;
+                    self->holds.cycles[i] = self->cycle;
+                }
+            }
         }
         if (should_wrap) {
             for (uint32_t i = 0; i < self->holds.n; ++i) {
